@@ -548,20 +548,6 @@ theorem backConvert_conserves (m M xg xl : List ℝ) (β : ℝ)
   · have : m.getD i 0 = m.getD i 0 / M.getD i 0 * M.getD i 0 := by field_simp
     rw [this, ← hb]; ring
 
-/-- the formula the code used before commit 87c9b6c (dbm.py l.706-710 of the snapshot): gas moles
-    recovered from the material balance of the first non-zero component alone,
-    `ng = |(n_idx − x_liq,idx N) / (x_gas,idx − x_liq,idx)|` -/
-noncomputable def ngFirstComponent (N ni xgi xli : ℝ) : ℝ := |(ni - xli * N) / (xgi - xli)|
-
-/-- … which is `β N` only if the two mole fractions of that component differ -/
-theorem ngFirstComponent_eq (N β ni xgi xli : ℝ) (hN : 0 ≤ N) (hβ : 0 ≤ β) (hbal : N * (β * xgi + (1 - β) * xli) = ni)
-    (hne : xgi ≠ xli) : ngFirstComponent N ni xgi xli = β * N := by
-  unfold ngFirstComponent
-  have hd : xgi - xli ≠ 0 := sub_ne_zero.mpr hne
-  have : (ni - xli * N) / (xgi - xli) = β * N := by
-    rw [div_eq_iff hd, ← hbal]; ring
-  rw [this, abs_of_nonneg (mul_nonneg hβ hN)]
-
 /-- the four ways `rrBeta` produces its gas fraction -/
 theorem rrBeta_cases (z K : List ℝ) (fuel : Nat) :
     ((List.zipWith (fun a b => a * b) z K).sum - 1 ≤ 0 ∧ (rrBeta z K fuel).1 = 0) ∨
@@ -808,5 +794,221 @@ theorem moleFrac_gather_head_pos : ∀ (m M : List ℝ), M.length = m.length →
         rcases List.mem_cons.mp ha with rfl | ha'
         · exact absurd hapos hx
         · exact ⟨a, ha', hapos⟩
+
+/-! ### monotonicity of the Rachford–Rice function and the root bracket -/
+
+/-- g(β₁) − g(β₂) = (β₂ − β₁) · Σ z (K−1)² / (d₁ d₂) -/
+theorem gGas_sub (z K : List ℝ) (b1 b2 : ℝ) (hlen : z.length = K.length)
+    (h1 : ∀ k ∈ K, 1 + b1 * (k - 1) ≠ 0) (h2 : ∀ k ∈ K, 1 + b2 * (k - 1) ≠ 0) :
+    gGas z K b1 - gGas z K b2 =
+      (b2 - b1) * (List.zipWith (fun zi k => zi * (k - 1) ^ 2 / ((1 + b1 * (k - 1)) * (1 + b2 * (k - 1)))) z K).sum := by
+  rw [gGas_real, gGas_real]
+  induction z generalizing K with
+  | nil => simp
+  | cons x xs ih => cases K with
+    | nil => simp at hlen
+    | cons k ks =>
+      simp only [List.zipWith_cons_cons, List.sum_cons]
+      have ih' := ih ks (by simpa using hlen) (fun k' hk' => h1 k' (List.mem_cons_of_mem _ hk'))
+        (fun k' hk' => h2 k' (List.mem_cons_of_mem _ hk'))
+      have a1 := h1 k List.mem_cons_self
+      have a2 := h2 k List.mem_cons_self
+      have : x * (k - 1) / (1 + b1 * (k - 1)) - x * (k - 1) / (1 + b2 * (k - 1))
+          = (b2 - b1) * (x * (k - 1) ^ 2 / ((1 + b1 * (k - 1)) * (1 + b2 * (k - 1)))) := by
+        rw [div_sub_div _ _ a1 a2, ← mul_div_assoc, div_left_inj' (mul_ne_zero a1 a2)]; ring
+      linarith [ih', this, mul_add (b2 - b1) (x * (k - 1) ^ 2 / ((1 + b1 * (k - 1)) * (1 + b2 * (k - 1))))
+        (List.zipWith (fun zi k => zi * (k - 1) ^ 2 / ((1 + b1 * (k - 1)) * (1 + b2 * (k - 1)))) xs ks).sum]
+
+theorem sum_pos_of_nonneg_of_exists (l : List ℝ) (h0 : ∀ x ∈ l, 0 ≤ x) (h : ∃ x ∈ l, 0 < x) : 0 < l.sum := by
+  obtain ⟨x, hx, hpos⟩ := h
+  exact lt_of_lt_of_le hpos (List.single_le_sum h0 x hx)
+
+theorem mem_zipWith_of_mem_zip (f : ℝ → ℝ → ℝ) : ∀ (z K : List ℝ) (p : ℝ × ℝ), p ∈ List.zip z K →
+    f p.1 p.2 ∈ List.zipWith f z K := by
+  intro z
+  induction z with
+  | nil => intro K p hp; simp at hp
+  | cons a as ih =>
+    intro K p hp
+    cases K with
+    | nil => simp at hp
+    | cons k ks =>
+      simp only [List.zip_cons_cons, List.mem_cons] at hp
+      simp only [List.zipWith_cons_cons, List.mem_cons]
+      rcases hp with rfl | hp
+      · left; rfl
+      · right; exact ih ks p hp
+
+/-- **g is strictly decreasing on [0,1]** as soon as one component with z > 0 has K ≠ 1 (all K > 0, z ≥ 0) -/
+theorem gGas_strictAnti (z K : List ℝ) (hlen : z.length = K.length) (hz : ∀ x ∈ z, 0 ≤ x) (hK : ∀ k ∈ K, 0 < k)
+    (hex : ∃ p ∈ List.zip z K, 0 < p.1 ∧ p.2 ≠ 1) (b1 b2 : ℝ) (h0 : 0 ≤ b1) (h12 : b1 < b2) (h1 : b2 ≤ 1) :
+    gGas z K b2 < gGas z K b1 := by
+  have d1 : ∀ k ∈ K, 0 < 1 + b1 * (k - 1) := fun k hk => den_pos b1 k h0 (by linarith) (hK k hk)
+  have d2 : ∀ k ∈ K, 0 < 1 + b2 * (k - 1) := fun k hk => den_pos b2 k (by linarith) h1 (hK k hk)
+  have e := gGas_sub z K b1 b2 hlen (fun k hk => (d1 k hk).ne') (fun k hk => (d2 k hk).ne')
+  have hpos : 0 < (List.zipWith (fun zi k => zi * (k - 1) ^ 2 / ((1 + b1 * (k - 1)) * (1 + b2 * (k - 1)))) z K).sum := by
+    apply sum_pos_of_nonneg_of_exists
+    · intro x hx
+      obtain ⟨p, hp, rfl⟩ := mem_zipWith_zip _ z K x hx
+      have hm := List.of_mem_zip (a := p.1) (b := p.2) hp
+      exact div_nonneg (mul_nonneg (hz _ hm.1) (sq_nonneg _)) (mul_pos (d1 _ hm.2) (d2 _ hm.2)).le
+    · obtain ⟨p, hp, hzp, hkp⟩ := hex
+      have hm := List.of_mem_zip (a := p.1) (b := p.2) hp
+      refine ⟨_, mem_zipWith_of_mem_zip _ z K p hp, ?_⟩
+      exact div_pos (mul_pos hzp (by positivity)) (mul_pos (d1 _ hm.2) (d2 _ hm.2))
+  have : 0 < (b2 - b1) * (List.zipWith (fun zi k => zi * (k - 1) ^ 2 / ((1 + b1 * (k - 1)) * (1 + b2 * (k - 1)))) z K).sum :=
+    mul_pos (by linarith) hpos
+  linarith
+
+theorem exists_pos_of_sum_pos : ∀ (l : List ℝ), 0 < l.sum → ∃ x ∈ l, 0 < x := by
+  intro l
+  induction l with
+  | nil => intro h; simp at h
+  | cons a as ih =>
+    intro h
+    simp only [List.sum_cons] at h
+    by_cases ha : 0 < a
+    · exact ⟨a, List.mem_cons_self, ha⟩
+    · obtain ⟨x, hx, hp⟩ := ih (by linarith)
+      exact ⟨x, List.mem_cons_of_mem _ hx, hp⟩
+
+theorem sum_zK_sub (z K : List ℝ) (hlen : z.length = K.length) :
+    (List.zipWith (fun a b => a * b) z K).sum - z.sum = (List.zipWith (fun a b => a * (b - 1)) z K).sum := by
+  induction z generalizing K with
+  | nil => simp
+  | cons x xs ih => cases K with
+    | nil => simp at hlen
+    | cons k ks =>
+      simp only [List.zipWith_cons_cons, List.sum_cons]
+      have := ih ks (by simpa using hlen)
+      linarith [mul_sub x k 1]
+
+/-- when condition (4) fails for a composition, some component with z > 0 has K > 1 -/
+theorem exists_volatile (z K : List ℝ) (hlen : z.length = K.length) (hz : ∀ x ∈ z, 0 ≤ x) (hsum : z.sum = 1)
+    (h4 : ¬ ((List.zipWith (fun a b => a * b) z K).sum - 1 ≤ 0)) : ∃ p ∈ List.zip z K, 0 < p.1 ∧ p.2 ≠ 1 := by
+  have h := sum_zK_sub z K hlen
+  rw [hsum] at h
+  obtain ⟨x, hx, hpos⟩ := exists_pos_of_sum_pos _ (by rw [← h]; linarith [not_le.mp h4])
+  obtain ⟨p, hp, rfl⟩ := mem_zipWith_zip _ z K x hx
+  have hm := List.of_mem_zip (a := p.1) (b := p.2) hp
+  have hz0 := hz _ hm.1
+  refine ⟨p, hp, ?_, ?_⟩
+  · rcases eq_or_lt_of_le hz0 with h0 | h0
+    · rw [← h0] at hpos; simp at hpos
+    · exact h0
+  · intro h1; rw [h1] at hpos; simp at hpos
+
+/-- at a root of g in [0,1] both rows sum to one, so no mole fraction exceeds one, so the root obeys every
+    bound (7) and (8): the initial bracket contains every root -/
+theorem root_in_bounds (z K : List ℝ) (hlen : z.length = K.length) (hz : ∀ x ∈ z, 0 ≤ x) (hsum : z.sum = 1)
+    (hK : ∀ k ∈ K, 0 < k) (r : ℝ) (hr0 : 0 ≤ r) (hr1 : r ≤ 1) (hroot : gGas z K r = 0) :
+    ((List.zip z K).foldl boundsStep (0, 1)).1 ≤ r ∧ r ≤ ((List.zip z K).foldl boundsStep (0, 1)).2 := by
+  have hd : ∀ k ∈ K, 0 < 1 + r * (k - 1) := fun k hk => den_pos r k hr0 hr1 (hK k hk)
+  obtain ⟨sl, sg⟩ := rows_sums z K r hlen (fun k hk => (hd k hk).ne')
+  rw [hroot, hsum] at sl sg
+  obtain ⟨ng, nl⟩ := rows_nonneg z K r hz hK hr0 hr1
+  have hc := bounds_fold_is_cand (List.zip z K) (0, 1)
+  constructor
+  · rcases hc.1 with h | ⟨p, hp, hk, h⟩ <;> rw [h]
+    · exact hr0
+    · have hm := List.of_mem_zip (a := p.1) (b := p.2) hp
+      have hmem : p.1 * p.2 / (1 + r * (p.2 - 1)) ∈ (rows z K r).1 := by
+        unfold rows; simp only [Num.real_one]; exact mem_zipWith_of_mem_zip _ z K p hp
+      have hle := List.single_le_sum ng _ hmem
+      rw [sg] at hle
+      have hdp := hd _ hm.2
+      rw [div_le_iff₀ hdp] at hle
+      unfold cmin
+      rcases eq_or_lt_of_le hk with h1 | h1
+      · rw [← h1]; simpa using hr0
+      · rw [div_le_iff₀ (by linarith)]; nlinarith
+  · rcases hc.2 with h | ⟨p, hp, hk, h⟩ <;> rw [h]
+    · exact hr1
+    · have hm := List.of_mem_zip (a := p.1) (b := p.2) hp
+      have hmem : p.1 / (1 + r * (p.2 - 1)) ∈ (rows z K r).2 := by
+        unfold rows; simp only [Num.real_one]; exact mem_zipWith_of_mem_zip _ z K p hp
+      have hle := List.single_le_sum nl _ hmem
+      rw [sl] at hle
+      have hdp := hd _ hm.2
+      rw [div_le_iff₀ hdp] at hle
+      unfold cmax
+      rw [le_div_iff₀ (by linarith)]; nlinarith
+
+/-- the root stays inside the bracket: position `ρ` of the root in the loop's variable (β for the gas
+    form, 1 − β for the liquid form) -/
+def KInv (ρ : ℝ) (s : RRState ℝ) : Prop := s.bmin ≤ ρ ∧ ρ ≤ s.bmax
+
+/-- **one pass keeps the root in the bracket** — this uses the DIRECTION of the bound update (l.3253-3270)
+    and the strict monotonicity of g -/
+theorem rrStep_keeps_root (z K : List ℝ) (gf : Bool) (r : ℝ) (hr0 : 0 ≤ r) (hr1 : r ≤ 1) (hroot : gGas z K r = 0)
+    (hanti : ∀ b1 b2 : ℝ, 0 ≤ b1 → b1 < b2 → b2 ≤ 1 → gGas z K b2 < gGas z K b1)
+    (s : RRState ℝ) (hv0 : 0 ≤ s.bvar) (hv1 : s.bvar ≤ 1) (h : KInv (if gf then r else 1 - r) s) :
+    KInv (if gf then r else 1 - r) (rrStep z K gf s).1 := by
+  obtain ⟨k1, k2⟩ := h
+  unfold rrStep KInv
+  cases gf
+  · -- liquid form
+    simp only [Bool.false_eq_true, if_false, Num.real_zero] at k1 k2 ⊢
+    rw [gLiq_eq_gGas]
+    split_ifs with hg
+    · refine ⟨k1, ?_⟩
+      by_contra hc
+      have := hanti (1 - (1 - r)) (1 - s.bvar) (by linarith) (by linarith [not_le.mp hc]) (by linarith)
+      simp only [sub_sub_cancel] at this
+      rw [hroot] at this; linarith
+    · refine ⟨?_, k2⟩
+      by_contra hc
+      have := hanti (1 - s.bvar) (1 - (1 - r)) (by linarith) (by linarith [not_le.mp hc]) (by linarith)
+      simp only [sub_sub_cancel] at this
+      rw [hroot] at this; linarith [not_lt.mp hg]
+  · -- gas form
+    simp only [if_true, Num.real_zero] at k1 k2 ⊢
+    split_ifs with hg
+    · refine ⟨?_, k2⟩
+      by_contra hc
+      have := hanti r s.bvar hr0 (not_le.mp hc) hv1
+      rw [hroot] at this; linarith
+    · refine ⟨k1, ?_⟩
+      by_contra hc
+      have := hanti s.bvar r hv0 (not_le.mp hc) hr1
+      rw [hroot] at this; linarith [not_lt.mp hg]
+
+theorem rrLoop_keeps_root (z K : List ℝ) (gf : Bool) (r : ℝ) (hr0 : 0 ≤ r) (hr1 : r ≤ 1) (hroot : gGas z K r = 0)
+    (hanti : ∀ b1 b2 : ℝ, 0 ≤ b1 → b1 < b2 → b2 ≤ 1 → gGas z K b2 < gGas z K b1)
+    (ρ : ℝ) (hρ : ρ = if gf then r else 1 - r) :
+    ∀ (fuel : Nat) (s : RRState ℝ) (tr : List ℝ), Inv 0 1 s → KInv ρ s → KInv ρ (rrLoop z K gf fuel s tr).1 := by
+  intro fuel
+  induction fuel with
+  | zero => intro s tr _ h; simpa [rrLoop] using h
+  | succ n ih =>
+    intro s tr hi h
+    have hs := rrStep_inv z K gf 0 1 s hi
+    have hk : KInv ρ (rrStep z K gf s).1 := by
+      rw [hρ]
+      exact rrStep_keeps_root z K gf r hr0 hr1 hroot hanti s (by linarith [hi.1, hi.2.1])
+        (by linarith [hi.2.2.1, hi.2.2.2]) (by rw [← hρ]; exact h)
+    unfold rrLoop
+    simp only []
+    split_ifs
+    · exact ih _ _ hs hk
+    · exact hk
+
+/-- denominators stay positive for K_i = 0 (the code sets a NaN K to 0, l.3007) as long as β < 1 -/
+theorem den_pos_of_nonneg (β k : ℝ) (h0 : 0 ≤ β) (h1 : β < 1) (hk : 0 ≤ k) : 0 < 1 + β * (k - 1) := by
+  have e : 1 + β * (k - 1) = (1 - β) + β * k := by ring
+  rw [e]
+  have : 0 ≤ β * k := mul_nonneg h0 hk
+  linarith
+
+theorem rows_nonneg_of_den (z K : List ℝ) (β : ℝ) (hz : ∀ x ∈ z, 0 ≤ x) (hK : ∀ k ∈ K, 0 ≤ k)
+    (hd : ∀ k ∈ K, 0 < 1 + β * (k - 1)) :
+    (∀ x ∈ (rows z K β).1, 0 ≤ x) ∧ (∀ x ∈ (rows z K β).2, 0 ≤ x) := by
+  unfold rows
+  simp only [Num.real_one]
+  constructor <;> intro x hx <;> obtain ⟨p, hp, rfl⟩ := mem_zipWith_zip _ z K x hx <;>
+    have hm := List.of_mem_zip (a := p.1) (b := p.2) hp <;>
+    have hdp := hd _ hm.2
+  · exact div_nonneg (mul_nonneg (hz _ hm.1) (hK _ hm.2)) hdp.le
+  · exact div_nonneg (hz _ hm.1) hdp.le
 
 end TamocV.Lemmas.C02
